@@ -1,55 +1,31 @@
-(* C15/ProofsBounded.v — assembles the per-shape vm_compute lemmas of Bounded*.v into the
+(* C15/ProofsBounded.v — EXTENDED bounded domain (checked by coqc's VM only; not part of Props.v because coqchk
+   re-checks VM casts with the lazy machine, ~30x slower) — assembles the per-shape vm_compute lemmas of Bounded*.v into the
    bounded theorems: completeness of the enumeration + case analysis on the shape. *)
-Require Import Base.Prelude C15.Model C15.Spec.
+Require Import Base.Prelude C15.Model C15.Spec C15.BoundedCommon.
 Require Import C15.BoundedA C15.BoundedB C15.BoundedC C15.BoundedD C15.BoundedE C15.BoundedF.
 
-Lemma all_lists_complete {A} (alphabet : list A) (l : list A) :
-  Forall (fun a => In a alphabet) l -> In l (all_lists alphabet (length l)).
-Proof.
-  induction 1 as [|a t Ha Ht IH]; cbn [all_lists length]; [now left|].
-  apply in_flat_map. exists t. split; [exact IH|]. apply in_map_iff. exists a. auto.
-Qed.
-
-Lemma check_shape_nomask_use alphabet nx ny vals conn8 :
-  check_shape_nomask alphabet nx ny = true -> lenZ vals = nx * ny ->
-  Forall (fun v => In v alphabet) vals -> check_one vals None conn8 nx ny = true.
-Proof.
-  unfold check_shape_nomask. rewrite forallb_forall. intros H Hl Hf.
-  specialize (H vals). replace (Z.to_nat (nx * ny)) with (length vals) in H by (unfold lenZ in Hl; lia).
-  specialize (H (all_lists_complete _ _ Hf)). apply andb_prop in H. destruct H. destruct conn8; auto.
-Qed.
-
-Lemma check_shape_mask_use alphabet nx ny cs conn8 :
-  check_shape_mask alphabet nx ny = true -> lenZ cs = nx * ny ->
-  Forall (fun c => In c alphabet) cs -> check_one (vals_of cs) (Some (mask_of cs)) conn8 nx ny = true.
-Proof.
-  unfold check_shape_mask. rewrite forallb_forall. intros H Hl Hf.
-  specialize (H cs). replace (Z.to_nat (nx * ny)) with (length cs) in H by (unfold lenZ in Hl; lia).
-  specialize (H (all_lists_complete _ _ Hf)). apply andb_prop in H. destruct H. destruct conn8; auto.
-Qed.
-
 (* the bounded domain of shapes: every shape with at most 8 cells (1xN, Nx1, 1x1 included) and 3x3 *)
-Definition small_shape (nx ny : Z) : Prop := 1 <= nx /\ 1 <= ny /\ (nx * ny <= 8 \/ (nx = 3 /\ ny = 3)).
+Definition ext_shape (nx ny : Z) : Prop := 1 <= nx /\ 1 <= ny /\ (nx * ny <= 8 \/ (nx = 3 /\ ny = 3)).
 
-Definition small_shapes : list (Z * Z) := [(1, 1); (1, 2); (1, 3); (1, 4); (1, 5); (1, 6); (1, 7); (1, 8); (2, 1); (2, 2); (2, 3); (2, 4); (3, 1); (3, 2); (4, 1); (4, 2); (5, 1); (6, 1); (7, 1); (8, 1); (3, 3)].
+Definition ext_shapes : list (Z * Z) := [(1, 1); (1, 2); (1, 3); (1, 4); (1, 5); (1, 6); (1, 7); (1, 8); (2, 1); (2, 2); (2, 3); (2, 4); (3, 1); (3, 2); (4, 1); (4, 2); (5, 1); (6, 1); (7, 1); (8, 1); (3, 3)].
 
-Lemma small_shape_In nx ny : small_shape nx ny -> In (nx, ny) small_shapes.
+Lemma ext_shape_In nx ny : ext_shape nx ny -> In (nx, ny) ext_shapes.
 Proof.
   intros (Hx & Hy & Hs).
   assert (Hbx : nx <= 8) by nia. assert (Hby : ny <= 8) by nia.
   assert (Cx : nx = 1 \/ nx = 2 \/ nx = 3 \/ nx = 4 \/ nx = 5 \/ nx = 6 \/ nx = 7 \/ nx = 8) by lia.
   assert (Cy : ny = 1 \/ ny = 2 \/ ny = 3 \/ ny = 4 \/ ny = 5 \/ ny = 6 \/ ny = 7 \/ ny = 8) by lia.
-  clear Hbx Hby Hx Hy. unfold small_shapes.
+  clear Hbx Hby Hx Hy. unfold ext_shapes.
   destruct Cx as [->|[->|[->|[->|[->|[->|[->| ->]]]]]]];
   destruct Cy as [->|[->|[->|[->|[->|[->|[->| ->]]]]]]];
   first [ exfalso; lia | cbn [In]; repeat (first [ left; reflexivity | right ]) ].
 Qed.
 
 Lemma bounded_nomask nx ny conn8 vals :
-  small_shape nx ny -> lenZ vals = nx * ny -> Forall (fun v => In v [0; 1; 2]) vals ->
+  ext_shape nx ny -> lenZ vals = nx * ny -> Forall (fun v => In v [0; 1; 2]) vals ->
   check_one vals None conn8 nx ny = true.
 Proof.
-  intros Hs Hl Hf. apply small_shape_In in Hs. unfold small_shapes in Hs. cbn [In] in Hs.
+  intros Hs Hl Hf. apply ext_shape_In in Hs. unfold ext_shapes in Hs. cbn [In] in Hs.
   destruct Hs as [[= <- <-]|Hs]; [eapply check_shape_nomask_use; [exact chk_nomask_1_1|assumption|assumption]|].
   destruct Hs as [[= <- <-]|Hs]; [eapply check_shape_nomask_use; [exact chk_nomask_1_2|assumption|assumption]|].
   destruct Hs as [[= <- <-]|Hs]; [eapply check_shape_nomask_use; [exact chk_nomask_1_3|assumption|assumption]|].
@@ -75,10 +51,10 @@ Proof.
 Qed.
 
 Lemma bounded_mask nx ny conn8 cs :
-  small_shape nx ny -> lenZ cs = nx * ny -> Forall (fun c => In c [None; Some 0; Some 1]) cs ->
+  ext_shape nx ny -> lenZ cs = nx * ny -> Forall (fun c => In c [None; Some 0; Some 1]) cs ->
   check_one (vals_of cs) (Some (mask_of cs)) conn8 nx ny = true.
 Proof.
-  intros Hs Hl Hf. apply small_shape_In in Hs. unfold small_shapes in Hs. cbn [In] in Hs.
+  intros Hs Hl Hf. apply ext_shape_In in Hs. unfold ext_shapes in Hs. cbn [In] in Hs.
   destruct Hs as [[= <- <-]|Hs]; [eapply check_shape_mask_use; [exact chk_mask_1_1|assumption|assumption]|].
   destruct Hs as [[= <- <-]|Hs]; [eapply check_shape_mask_use; [exact chk_mask_1_2|assumption|assumption]|].
   destruct Hs as [[= <- <-]|Hs]; [eapply check_shape_mask_use; [exact chk_mask_1_3|assumption|assumption]|].
@@ -103,19 +79,3 @@ Proof.
   destruct Hs.
 Qed.
 
-Lemma check_one_lossless vals mask conn8 nx ny : check_one vals mask conn8 nx ny = true ->
-  exists out, polygonize_model vals mask conn8 None nx ny = Some out /\
-              lossless_check vals mask conn8 nx ny out = true.
-Proof.
-  unfold check_one, lossless_check. intros H. apply andb_prop in H. destruct H as [H _].
-  destruct (polygonize_model vals mask conn8 None nx ny) as [out|]; [|discriminate]. eauto.
-Qed.
-
-Lemma check_one_regions vals mask conn8 nx ny : nx <> 1 -> check_one vals mask conn8 nx ny = true ->
-  exists regions, calculate_regions vals mask conn8 nx ny = Some regions /\
-                  regions_check vals mask conn8 nx ny regions = true.
-Proof.
-  unfold check_one, regions_check. intros Hnx H. apply andb_prop in H. destruct H as [_ H].
-  destruct (nx =? 1) eqn:E; [lia|].
-  destruct (calculate_regions vals mask conn8 nx ny) as [r|]; [|discriminate]. eauto.
-Qed.
